@@ -1,0 +1,35 @@
+//! Verification hooks, compiled only with the `verif_hooks` feature.
+//!
+//! They let a test harness (a) make `filter_kmers` run many bucket passes on tiny
+//! inputs by overriding how many bytes one unit of `memory_size` stands for, and
+//! (b) observe which bucket passes the last call actually made.
+use std::cell::RefCell;
+
+thread_local! {
+    static BYTES_PER_UNIT: RefCell<Option<usize>> = RefCell::new(None);
+    static PASSES: RefCell<Vec<(usize, usize, usize)>> = RefCell::new(Vec::new());
+}
+
+/// Override the number of bytes one unit of `memory_size` stands for (default 10^9).
+pub fn set_bytes_per_unit(v: Option<usize>) {
+    BYTES_PER_UNIT.with(|b| *b.borrow_mut() = v);
+}
+
+/// Called by `filter_kmers` once per call: resets the pass log and returns the memory bound to use.
+pub fn max_mem(memory_size: usize, default: usize) -> usize {
+    PASSES.with(|p| p.borrow_mut().clear());
+    BYTES_PER_UNIT.with(|b| match *b.borrow() {
+        Some(u) => std::cmp::max(1, memory_size * u),
+        None => default,
+    })
+}
+
+/// Called by `filter_kmers` at the start of every bucket pass.
+pub fn pass(i: usize, start: usize, end: usize) {
+    PASSES.with(|p| p.borrow_mut().push((i, start, end)));
+}
+
+/// Bucket passes made by the last `filter_kmers` call on this thread.
+pub fn take_passes() -> Vec<(usize, usize, usize)> {
+    PASSES.with(|p| std::mem::take(&mut *p.borrow_mut()))
+}
